@@ -108,9 +108,17 @@ pub async fn dispatch_command<W: AsyncWrite + Unpin>(
                 Ok(())
             }
         }
-        _ => {
-            error!(target: "sneldb::dispatch", ?cmd, "Unreachable command variant encountered");
-            unreachable!("dispatch_command called with non-command")
+        Batch(_) => {
+            // Batches are split into their commands by the front ends; one that reaches the
+            // dispatcher as a whole is answered with an error instead of tearing down the task.
+            error!(target: "sneldb::dispatch", "BATCH reached the dispatcher unsplit");
+            let resp = Response::error(
+                StatusCode::BadRequest,
+                "BATCH must be split into individual commands before dispatch",
+            );
+            writer.write_all(&renderer.render(&resp)).await?;
+            writer.flush().await?;
+            Ok(())
         }
     }
 }
